@@ -332,8 +332,15 @@ def rule_G5(ctx: Ctx) -> None:
                 continue
             b_name = inner[0].target.id
             a_, b_ = f"{a_name}.{fieldn}", f"{b_name}.{fieldn}"
-            ok, slot = X.relation_in(hit[0].test, [t.format(a=x, b=y, thr=thr) for x, y in ((a_, b_), (b_, a_)) for t in (
-                "np.sum({a} != {b}) <= {thr}", "({a} != {b}).sum() <= {thr}", "np.count_nonzero({a} != {b}) <= {thr}")])
+            # (normalised form: one conjunction `thr is not None and shapes equal and <distance> <= thr`)
+            nf = N.boolean_nf(X.substitute_len(hit[0].test))
+            atoms = {a.key() for a in N.nf_atoms(nf)} if (isinstance(nf, N.Atom) or nf[0] == "and") else None
+            dist_keys = {N.boolean_nf(X.expr_of(t.format(a=x, b=y, thr=thr))).key() for x, y in ((a_, b_), (b_, a_)) for t in (
+                "np.sum({a} != {b}) <= {thr}", "({a} != {b}).sum() <= {thr}", "np.count_nonzero({a} != {b}) <= {thr}")}
+            guard_keys = {N.boolean_nf(X.expr_of(f"{thr} is not None")).key()}
+            shape_keys = {N.boolean_nf(X.expr_of(f"{x}.shape == {y}.shape")).key() for x, y in ((a_, b_), (b_, a_))}
+            ok = atoms is not None and bool(atoms & dist_keys) and guard_keys <= atoms and bool(atoms & shape_keys) and len(atoms) == 3
+            slot = {"found": N.nf_str(nf), "expected": f"{thr} is not None and equal shapes and count of differing entries <= {thr}"}
             brk = any(isinstance(s, ast.Break) for s in hit[0].body)
             slot["breaks"] = brk
             ctx.judge(f, ok if ok is not True else True, slot, f"near-duplicate iff number of differing {fieldn} entries <= threshold", node=hit[0])
